@@ -148,6 +148,8 @@ class Engine(Interp):
                     val = self.rvalue(st, fr, rv, dest_ty, (bi, si))
                 except Unsupported as e:
                     ctx.emit("unsupported", fn=fr.inst.name, where=body.span_of(bi, si), what=str(e))
+                    if not fr.inst.local:
+                        raise     # external code is either fully understood or treated as an unknown call
                     val = ctx.top_value(st, dest_ty)
                 key, proj = self.resolve(st, fr, place)
                 self.store_at(st, key, proj, val)
@@ -411,7 +413,7 @@ class Engine(Interp):
                 raise Unsupported(f"arity mismatch calling {inst.name}: {len(args)} vs {body.arg_count}")
         # memoisation for pure scalar functions
         mkey = None
-        sig = self.sig_of(st, args)
+        sig = None if st.res else self.sig_of(st, args)
         if sig is not None:
             mkey = (inst.id, sig)
             hit = ctx.memo.get(mkey)
